@@ -61,6 +61,7 @@ def n_for(t, tier, nshards):
 def run_shard(mod, prop, tier, seed, shard, nshards, out):
     from vlib import core
     rec = core.Recorder(prop)
+    core.CASE_TIMEOUT_S[0] = int(getattr(mod, "CASE_TIMEOUT_S", 0) or 0)
     only = os.environ.get("VERIF_ONLY")
     for name, t in mod.TESTS.items():
         if only and name not in only.split(","):
@@ -165,6 +166,14 @@ def main():
     # ---- child modes -------------------------------------------------
     if args.shard:
         i, n = [int(x) for x in args.shard.split("/")]
+        # bound the address space of a shard: code that tries to build e.g. a 65k x 65k covariance matrix then raises
+        # MemoryError inside AegeanTools (reported as an escaped exception) instead of getting the shard OOM-killed
+        try:
+            import resource
+            lim = int(getattr(mod, "MEMORY_LIMIT_GB", 10)) * 1024 ** 3
+            resource.setrlimit(resource.RLIMIT_AS, (lim, lim))
+        except (ImportError, ValueError, OSError):
+            pass
         try:
             run_shard(mod, prop, args.tier, seed, i, n, args.out)
         except Exception:
@@ -180,6 +189,14 @@ def main():
         sys.exit(0)
 
     known = [k for k in core.load_known() if k.get("property") == prop]
+    # re-executions in this (parent) process run under the same per-case budget and memory bound as the shards
+    core.CASE_TIMEOUT_S[0] = int(getattr(mod, "CASE_TIMEOUT_S", 0) or 0)
+    try:
+        import resource
+        lim = int(getattr(mod, "MEMORY_LIMIT_GB", 10)) * 1024 ** 3
+        resource.setrlimit(resource.RLIMIT_AS, (lim, lim))
+    except (ImportError, ValueError, OSError):
+        pass
 
     # ---- replay mode --------------------------------------------------
     if args.replay:
@@ -229,20 +246,28 @@ def main():
                 failed.append((i, rc))
                 continue
             rec.merge(core.Recorder.load(out))
+        incomplete = None
         if failed:
-            for i, rc in failed:
-                try:
-                    with open(os.path.join(tmp, "shard%d.log" % i)) as f:
-                        sys.stdout.write(f.read()[-4000:])
-                except OSError:
-                    pass
             for p, _, _ in procs:
                 if p.poll() is None:
                     try:
                         os.killpg(p.pid, 9)
                     except OSError:
                         pass
-            harness_fail("shards failed or timed out: %r" % (failed,))
+            crashed = [(i, rc) for i, rc in failed if rc is not None]
+            if crashed or not rec.violations:
+                for i, rc in failed:
+                    try:
+                        with open(os.path.join(tmp, "shard%d.log" % i)) as f:
+                            sys.stdout.write(f.read()[-4000:])
+                    except OSError:
+                        pass
+                harness_fail("shards failed or timed out: %r" % (failed,))
+            # some shards ran out of time but the finished ones recorded violations: those stand on their own
+            # (each is re-executed below before it is reported); the run is otherwise incomplete
+            incomplete = "shards %r did not finish within the time limit" % ([i for i, _ in failed],)
+            print("note: " + incomplete + "; reporting the violations found by the others")
+            rec.extra["incomplete"] = incomplete
 
         # ---- known findings: re-execute their stored replay -----------
         known_lines = []
@@ -300,12 +325,18 @@ def main():
         for b, lst in sorted(new_buckets.items()):
             lst.sort(key=lambda v: len(json.dumps(v["case"])))
             best = lst[0]
-            # confirm by plain re-execution (state leaking between cases would show here)
-            try:
-                again = replay_case(mod, best)
-            except Exception:
-                traceback.print_exc()
-                harness_fail("re-execution of a failing case raised in the harness")
+            # confirm by plain re-execution (state leaking between cases would show here); a candidate whose
+            # re-execution runs out of the per-case budget is skipped in favour of the next one of the bucket
+            again = []
+            for cand in lst:
+                try:
+                    again = replay_case(mod, cand)
+                except Exception:
+                    traceback.print_exc()
+                    harness_fail("re-execution of a failing case raised in the harness")
+                if any(v["clause"] == cand["clause"] for v in again):
+                    best = cand
+                    break
             sequence = False
             if not any(v["clause"] == best["clause"] for v in again):
                 reproduced = False
